@@ -328,7 +328,7 @@ PROPS = {
         "jl": True,
         "module": "Props.C19",
         "namespace": "Jl.C19",
-        "extra_theorem_files": [("Proofs.JlDescriptor", "Jl.JlDescriptor"), ("Proofs.FlowTieAll", "Jl.FlowTie")],
+        "extra_theorem_files": [("Proofs.JlDescriptor", "Jl.JlDescriptor"), ("Proofs.FlowTieAll", "Jl.FlowTie"), ("Proofs.JlTie", "Jl.JlTie")],
         "rule": ("the jl binary built from the working tree, run in scratch directories (TZ=UTC): 120 (thorough: 3000) random column lists "
                  "(1-4 columns, names incl. non-ASCII and spaces, sub-rows to depth 2; input and output descriptors drawn from: absent, "
                  "every format, format(type) for all 19 type names, unknown names, wrong case, and the regexp's edge cases 'string()', "
